@@ -28,7 +28,7 @@ func init() {
 				"R5: the conversions that feed the servers, the cache and the connection limiter copy each validated setting into the constructor field of the same meaning (a wrong-field copy would put an unvalidated value where a validated one is assumed).",
 			NotCovered: "hazards other than the recognised ones (non-positive quantities, family bounds, division by zero); validation " +
 				"of lists, URLs and cross-references between sections; the environment variables.",
-			Rules: map[string]string{"C20-R14": "allocations sized by a configuration setting: the setting has an upper bound in validation (known findings: the rate-limit counts and the TCP pipeline count have none)", "C20-RC": "class rules (error chains, shadowed results, character classes, crossed arguments, pool constructors, array pools, loop completeness, loop-carried buffers, replacing setters, complete clones, Grow arithmetic, pooled-buffer escape, sorted searches, fresh decode targets, per-iteration objects, whole-message copies, codec guards) over the packages this property rests on", "C20-R13": "server.bindData: interface bindings without an interface-listener manager are rejected with an error", "C20-R12": "cacheConfig.toInternal: cache type none exactly when size is 0; dnssvc.newListenConfig wraps a listen configuration with the connection limiter only when there is one", "C20-R11": "newServerDNS accepts exactly the documented idle-timeout interval [0, MaxTCPIdleTimeout] (interval derived from the edges into the panic)", "C20-R1": "zero / negative rejection of every numeric setting", "C20-R2": "subnet key length family bounds",
+			Rules: map[string]string{"C20-R16": "a duration setting for which validation accepts zero reaches context.WithTimeout only behind a comparison with zero (a zero timeout is an expired context, not no timeout)", "C20-R15": "a configuration section whose validate accepts a nil receiver is read only after a nil test (receiver in its own methods, loaded pointer elsewhere in cmd)", "C20-R14": "allocations sized by a configuration setting: the setting has an upper bound in validation (known findings: the rate-limit counts and the TCP pipeline count have none)", "C20-RC": "class rules (error chains, shadowed results, character classes, crossed arguments, pool constructors, array pools, loop completeness, loop-carried buffers, replacing setters, complete clones, Grow arithmetic, pooled-buffer escape, sorted searches, fresh decode targets, per-iteration objects, whole-message copies, codec guards) over the packages this property rests on", "C20-R13": "server.bindData: interface bindings without an interface-listener manager are rejected with an error", "C20-R12": "cacheConfig.toInternal: cache type none exactly when size is 0; dnssvc.newListenConfig wraps a listen configuration with the connection limiter only when there is one", "C20-R11": "newServerDNS accepts exactly the documented idle-timeout interval [0, MaxTCPIdleTimeout] (interval derived from the edges into the panic)", "C20-R1": "zero / negative rejection of every numeric setting", "C20-R2": "subnet key length family bounds",
 				"C20-R3": "section table completeness", "C20-R4": "divisor provenance", "C20-R5": "validated settings are copied into the constructor fields of the same meaning",
 				"C20-R8": "builder flags computed over all server groups accumulate (a later group cannot switch off what an earlier group needs, e.g. the profile database)",
 				"C20-R6": "DDR record validation: DoH port needs a path, hints must be of their address family"},
@@ -179,6 +179,14 @@ var c20Skip = map[string]string{
 
 func runC20(c *an.Ctx) {
 	classSweep(c, "C20")
+	// ---- R15: sections that validation lets be absent are nil-tested before they are read
+	if n := c20OptionalSections(c, "C20-R15"); n < 5 {
+		c.Und("C20-R15", "reads of optional sections", token.NoPos, "only %d field accesses through optional sections found", n)
+	}
+	// ---- R16: a duration for which zero is accepted ("no timeout") does not become an expired context
+	if n := c20ZeroTimeouts(c, "C20-R16"); n < 1 {
+		c.Und("C20-R16", "timeouts for which zero is accepted", token.NoPos, "no context.WithTimeout fed by such a setting found (anchor: backend.timeout)")
+	}
 	cmdConversions(c, "C20-R5", nil, 30)
 	// ---- R12: what an accepted cache / connection-limit configuration turns into: no cache exactly when size is 0
 	// (a zero-sized cache object panics at start-up), and a disabled (nil) limiter is never wrapped around a listener
@@ -1027,4 +1035,270 @@ func c20AllocSizes(c *an.Ctx) {
 	if len(fields) == 0 {
 		c.Und("C20-R14", "allocations sized by configuration", token.NoPos, "none found (anchors: the window ring buffer and the pipeline semaphore)")
 	}
+}
+
+// c20OptionalSections: a configuration section is optional when its validate
+// method accepts a nil receiver (returns nil on a path that is taken only when
+// the receiver is nil).  A section that validation lets be absent must not be
+// dereferenced as if it were there: every field access through a pointer to
+// such a type in package cmd is dominated by a nil test of that pointer, in
+// the type's own methods (receiver) as well as in the code that loads the
+// section from its parent.  Returns the number of dereferences examined.
+func c20OptionalSections(c *an.Ctx, rule string) (examined int) {
+	isNilCmp := func(cond ssa.Value, same func(ssa.Value) bool) (eq bool, ok bool) {
+		b, isBin := cond.(*ssa.BinOp)
+		if !isBin || b.Op != token.EQL && b.Op != token.NEQ {
+			return false, false
+		}
+		switch {
+		case an.IsNilConst(b.Y) && same(b.X), an.IsNilConst(b.X) && same(b.Y):
+			return b.Op == token.EQL, true
+		}
+		return false, false
+	}
+	// guarded reports whether block blk is reached only when the value described by same is non-nil
+	guarded := func(blk *ssa.BasicBlock, same func(ssa.Value) bool) bool {
+		for _, e := range an.DominatingConds(blk) {
+			if eq, ok := isNilCmp(e.If.Cond, same); ok && eq != e.Branch {
+				return true
+			}
+		}
+		return false
+	}
+	optional := map[string]string{} // type -> where its validate accepts nil
+	for _, fn := range c.Prog.AllFns {
+		k := an.FnKey(fn)
+		if !strings.HasPrefix(k, "cmd.(*") || !strings.HasSuffix(k, ").validate") || fn.Blocks == nil || len(fn.Params) == 0 {
+			continue
+		}
+		recv := fn.Params[0]
+		for _, r := range an.Returns(fn) {
+			if len(r.Results) == 0 || !an.IsNilConst(r.Results[len(r.Results)-1]) {
+				continue
+			}
+			for _, e := range an.DominatingConds(r.Block()) {
+				if eq, ok := isNilCmp(e.If.Cond, func(v ssa.Value) bool { return v == recv }); ok && eq == e.Branch {
+					optional[an.TypeName(an.Deref(recv.Type()))] = c.Prog.Pos(r.Pos())
+				}
+			}
+		}
+	}
+	// sameLoad: the value itself, or another load of the same field of the same base value / access path
+	sameLoad := func(x *ssa.UnOp) func(ssa.Value) bool {
+		src := x.X.(*ssa.FieldAddr)
+		path, hasPath := an.AccessPath(src)
+		return func(v ssa.Value) bool {
+			if v == x {
+				return true
+			}
+			ld, ok := v.(*ssa.UnOp)
+			if !ok || ld.Op != token.MUL {
+				return false
+			}
+			if fa2, ok := ld.X.(*ssa.FieldAddr); ok && fa2.X == src.X && fa2.Field == src.Field {
+				return true
+			}
+			p2, ok := an.AccessPath(ld.X)
+			return ok && hasPath && p2 == path
+		}
+	}
+	// mayGetNil: some static call site passes a receiver that is not known to be there (not freshly allocated,
+	// not nil-tested at the site); methods without visible call sites are examined too
+	mayGetNil := func(fn *ssa.Function) bool {
+		sites := c.Prog.Callers(fn)
+		if len(sites) == 0 {
+			return true
+		}
+		for _, s := range sites {
+			if s.Call == nil {
+				return true
+			}
+			a := an.ArgFor(s.Call, 0)
+			if _, fresh := a.(*ssa.Alloc); fresh {
+				continue
+			}
+			sm := func(v ssa.Value) bool { return v == a }
+			if ld, ok := a.(*ssa.UnOp); ok && ld.Op == token.MUL {
+				if _, isField := ld.X.(*ssa.FieldAddr); isField {
+					sm = sameLoad(ld)
+				}
+			}
+			if !guarded(s.Call.Block(), sm) {
+				return true
+			}
+		}
+		return false
+	}
+	if len(optional) == 0 {
+		c.Und(rule, "optional configuration sections", token.NoPos, "no validate method that accepts a nil receiver found (anchor: cmd.(*tlsConfig).validate)")
+		return 0
+	}
+	for _, fn := range c.Prog.AllFns {
+		k := an.FnKey(fn)
+		if !strings.HasPrefix(k, "cmd.") || fn.Blocks == nil || c.Prog.IsTestFile(fn.Pos()) {
+			continue
+		}
+		bad := map[string]string{}
+		n := 0
+		an.Instrs(fn, func(in ssa.Instruction) {
+			fa, ok := in.(*ssa.FieldAddr)
+			if !ok {
+				return
+			}
+			tn := an.TypeName(an.Deref(fa.X.Type()))
+			where, isOpt := optional[tn]
+			if !isOpt {
+				return
+			}
+			var same func(ssa.Value) bool
+			what := ""
+			switch x := fa.X.(type) {
+			case *ssa.Parameter:
+				if len(fn.Params) == 0 || x != fn.Params[0] || fn.Signature.Recv() == nil || !mayGetNil(fn) {
+					return
+				}
+				same = func(v ssa.Value) bool { return v == x }
+				what = "the receiver"
+			case *ssa.UnOp:
+				if x.Op != token.MUL {
+					return
+				}
+				src, isField := x.X.(*ssa.FieldAddr)
+				if !isField {
+					return
+				}
+				same = sameLoad(x)
+				_, what, _, _ = an.FieldOf(src)
+				what = "section " + what
+			default:
+				return
+			}
+			n++
+			if !guarded(fa.Block(), same) {
+				_, field, _, _ := an.FieldOf(fa)
+				bad[fmt.Sprintf("%s of %s", field, what)] = fmt.Sprintf("%s (%s accepts an absent section at %s)", c.Prog.Pos(fa.Pos()), an.Short(tn), where)
+			}
+		})
+		if n == 0 {
+			continue
+		}
+		examined += n
+		c.Analysed(k)
+		var bs []string
+		for f, w := range bad {
+			bs = append(bs, f+" at "+w)
+		}
+		sort.Strings(bs)
+		c.Check(len(bs) == 0, rule, k+" reads optional sections only after a nil test", fn.Pos(),
+			fmt.Sprintf("%d field accesses through pointers to optional sections, each dominated by a nil test", n),
+			"an accepted configuration without the section makes this a nil dereference: "+strings.Join(bs, "; "))
+	}
+	return examined
+}
+
+// c20ZeroTimeouts: a duration setting for which validation accepts zero (the
+// documented "no timeout") must not reach context.WithTimeout as it is: a
+// context with a zero timeout is expired when it is created, so every
+// operation run under it fails at once.  Every duration operand of
+// context.WithTimeout in production code is walked back to the yaml settings of
+// package cmd it comes from; for a setting that the table of accepted zeros
+// lists without a condition, the call (or the creation of the closure that
+// makes it) must be dominated by a comparison of that duration with zero.
+func c20ZeroTimeouts(c *an.Ctx, rule string) (examined int) {
+	settingsOf := func(v ssa.Value) (fs []string) {
+		w := &an.Walker{P: c.Prog}
+		w.Visit = func(x ssa.Value) bool {
+			// a read of a field of a cmd configuration struct, or (for timeutil.Duration and the like) of a field
+			// nested in one, that no production code stores: a yaml setting
+			ld, ok := x.(*ssa.UnOp)
+			if !ok || ld.Op != token.MUL {
+				return false
+			}
+			for a := ld.X; ; {
+				fa, ok := a.(*ssa.FieldAddr)
+				if !ok {
+					return false
+				}
+				if typ, field, _, ok := an.FieldOf(fa); ok && strings.HasPrefix(typ, "cmd.") {
+					if len(c.Prog.FieldStores(typ, field)) > 0 {
+						return false
+					}
+					fs = append(fs, strings.TrimPrefix(typ, "cmd.")+"."+field)
+					return true
+				}
+				a = fa.X
+			}
+		}
+		w.Walk(v)
+		return uniq(fs)
+	}
+	zeroTested := func(blk *ssa.BasicBlock, setting string) bool {
+		for _, e := range an.DominatingConds(blk) {
+			b, ok := e.If.Cond.(*ssa.BinOp)
+			if !ok {
+				continue
+			}
+			for _, pair := range [][2]ssa.Value{{b.X, b.Y}, {b.Y, b.X}} {
+				if k, isConst := an.ConstInt(pair[1]); !isConst || k != 0 {
+					continue
+				}
+				for _, s := range settingsOf(pair[0]) {
+					if s == setting {
+						return true
+					}
+				}
+			}
+		}
+		return false
+	}
+	type site struct {
+		call ssa.CallInstruction
+		fn   *ssa.Function
+	}
+	bySetting := map[string][]site{}
+	for _, fn := range c.AllFns {
+		if fn.Blocks == nil || c.IsTestFile(fn.Pos()) || !c.Prog.InRepo(fn) {
+			continue
+		}
+		for _, call := range an.Calls(fn) {
+			if an.CalleeName(call) != "context.WithTimeout" || len(call.Common().Args) != 2 {
+				continue
+			}
+			for _, s := range settingsOf(call.Common().Args[1]) {
+				bySetting[s] = append(bySetting[s], site{call, fn})
+			}
+		}
+	}
+	var names []string
+	for s := range bySetting {
+		names = append(names, s)
+	}
+	sort.Strings(names)
+	for _, s := range names {
+		al, ok := c20Allowed[s+"=0"]
+		if !ok || al.cond != "" {
+			continue // validation rejects zero (C20-R1), or accepts it only where the setting is unused
+		}
+		for _, st := range bySetting[s] {
+			examined++
+			c.Analysed(an.FnKey(st.fn))
+			ok := zeroTested(st.call.Block(), s)
+			if !ok && st.fn.Parent() != nil {
+				// a closure: created only where the duration is known not to be zero
+				ok = true
+				n := 0
+				for _, cs := range c.Prog.Callers(st.fn) {
+					if cs.Closure != nil {
+						n++
+						ok = ok && zeroTested(cs.Closure.Block(), s)
+					}
+				}
+				ok = ok && n > 0
+			}
+			key := fmt.Sprintf("%s: context.WithTimeout is not given the accepted zero of %s", an.FnKey(st.fn), s)
+			c.Check(ok, rule, key, st.call.Pos(), "the call is made only after the duration has been compared with zero",
+				fmt.Sprintf("validation accepts 0 for %s (%s) and the value reaches context.WithTimeout unchanged: the context is expired when it is created and everything run under it fails at once", s, al.reason))
+		}
+	}
+	return examined
 }
